@@ -1,6 +1,6 @@
 (* C13 — pickle input is equivalent to the plain-text input for the same datapoints. *)
 From CRNG Require Import Base.ListX Base.Bytes Base.Decimal Model.PickleVM Model.Reencode Model.PickleIn Model.PyPickle
-  Proofs.ReencodeProofs Proofs.PickleInProofs.
+  Proofs.ReencodeProofs Proofs.PickleInProofs Proofs.PickleIn4.
 Local Open Scope N_scope.
 
 (* Decoding (the og-rek machine, any text-float oracle) what CPython's pickler writes in protocol 2 or 3
@@ -25,6 +25,23 @@ Theorem C13_frames_become_lines :
     = (concat (map (fun pd => map (fun d => EvLine (line_of fmt6 fmt0 d)) (snd pd)) pss), FinOk).
 Proof. exact handle_conn_frames. Qed.
 Print Assumptions C13_frames_become_lines.
+
+(* protocol 4 (the default since Python 3.8): PROTO 4, FRAME, SHORT_BINUNICODE / BINUNICODE, MEMOIZE, TUPLE2 *)
+Theorem C13_decode_what_python_encodes_protocol4 :
+  forall pf ds, forallb dp_ok ds = true ->
+    unpickle pf false (py_dumps4 ds)
+    = RDone (VList (map (fun d => VTuple [VStr (d_name d); VTuple [num_val (d_ts d); num_val (d_val d)]]) ds)).
+Proof. exact unpickle_py_dumps4. Qed.
+Print Assumptions C13_decode_what_python_encodes_protocol4.
+
+(* one connection, any number of frames, each of protocol 2, 3 or 4 *)
+Theorem C13_frames_become_lines_mixed_protocols :
+  forall pf fmt6 fmt0 (pss : list (N * list pydp)),
+    Forall frame_ok4 pss ->
+    handle_conn pf fmt6 fmt0 (concat (map (fun pd => frame_of (payload pd)) pss))
+    = (concat (map (fun pd => map (fun d => EvLine (line_of fmt6 fmt0 d)) (snd pd)) pss), FinOk).
+Proof. exact handle_conn_frames4. Qed.
+Print Assumptions C13_frames_become_lines_mixed_protocols.
 
 (* one frame followed by anything: its lines come first, whatever the rest of the stream does *)
 Theorem C13_frame_then_rest :
